@@ -21,7 +21,7 @@ RULE = (
     "{1..9} u {k*c, k*c+-1} x chunksize {1,2,3,None} x seed {0,1,12345} x attributes {none, weights, redshifts, both; "
     "value i encodes source row i} x workers {1, 2 (virtual pool, all delivery orders)}; history: every sequence of "
     "length <= 3 over {direct call, probe, full pass, abandoned partial pass} before the observed pass, and repeated "
-    "Catalog.from_random with one generator; the same histories with a probe as the observed operation; explicit reseeding over {0,1,12345}^2 observed directly, through a reader created before, and through its probe; attribute tables of 1,2,3,7 rows: every row reachable (index range at the rng seam and 300*m real draws); probe: get_probe(s) for s in 1..n x chunksize {1,2,3,None} returns exactly s points, reproducibly; uniformity: the generator's rng replaced by a stub returning an exact "
+    "Catalog.from_random with one generator; the same histories with a probe as the observed operation; explicit reseeding over {0,1,12345}^2 observed directly, through a reader created before, and through its probe; attribute tables with NaN / inf in different rows of weights and redshifts (pairs stay rows of the input); attribute tables of 1,2,3,7 rows: every row reachable (index range at the rng seam and 300*m real draws); probe: get_probe(s) for s in 1..n x chunksize {1,2,3,None} returns exactly s points, reproducibly; uniformity: the generator's rng replaced by a stub returning an exact "
     "regular grid, the points must satisfy ra = lo+u(hi-lo), sin(dec) = sin(lo)+v(sin(hi)-sin(lo)). Oracle: exact "
     "count, every point inside the window, weight and redshift name the same source row, records identical to a "
     "fresh generator with that seed. Non-trivial: size not a multiple of the chunk size, or a non-empty history."
@@ -78,6 +78,8 @@ def cases(tier, seed):
     # attribute rows: with m source rows every row must be reachable (m = 1 included)
     for m in (1, 2, 3, 7):
         out.append(dict(part="rows", m=m))
+    for bad in ("nan", "inf"):
+        out.append(dict(part="rows", m=7, nonfinite=bad))
     # the probe used for generating patch centres: exactly the requested number of points, whatever the chunk size
     for c, n in itertools.product((1, 2, 3, None), (5, 7)):
         for size in range(1, n + 1):
@@ -276,6 +278,24 @@ def run_rows(case):
     m = case["m"]
     v = []
     kw = dict(weights=1.0 + np.arange(m), redshifts=0.01 * (np.arange(m) + 1))
+    if "nonfinite" in case:
+        # undefined entries in different rows of the two arrays: whatever is done with them, a drawn (weight, redshift)
+        # pair must be a row of the input (or the input is refused)
+        bad = dict(nan=np.nan, inf=np.inf)[case["nonfinite"]]
+        kw["weights"][2] = bad
+        kw["redshifts"][5] = bad
+        try:
+            gen = BoxRandoms(*WINDOWS["box"], seed=12345, **kw)
+            data = gen(300 * m)
+        except Exception:
+            return [], True  # refusing such input is fine
+        rows = {(repr(float(a)), repr(float(b))) for a, b in zip(kw["weights"], kw["redshifts"])}
+        drawn = {(repr(float(a)), repr(float(b))) for a, b in zip(data["weights"], data["redshifts"])}
+        if not drawn <= rows:
+            return [dict(signature="C16/rows/not-joint/nonfinite",
+                         what=f"with {case['nonfinite']} in rows 2 (weights) and 5 (redshifts) pairs are drawn that are no row of "
+                              f"the input: {sorted(drawn - rows)[:3]}")], True
+        return [], True
     try:
         gen = BoxRandoms(*WINDOWS["box"], seed=12345, **kw)
         data = gen(300 * m)
